@@ -100,6 +100,8 @@ class MinMaxAggregator:
         for arg in symbol.arguments:
             if arg.ast_type not in {ASTType.Variable, ASTType.SymbolicTerm}:
                 return  # nocoverage
+        if any(var not in list(symbol.arguments) for var in rest_vars):
+            return  # the head does not carry all variables of the aggregate, so it can not address the chain
 
         mapping = [
             (rest_vars + [max_var]).index(arg) if arg in rest_vars + [max_var] else None for arg in symbol.arguments
